@@ -124,7 +124,7 @@ def run(ctx):
         scale_pow = 0
         if kind == 'sq' and t % 4 == 3:
             # the distribution is invariant under scaling: a huge (power-of-two) norm must not matter
-            scale_pow = 150
+            scale_pow = 200
         if kind == 'lin' and F.dense(Y).sum() <= 0:
             continue
         if kind == 'sq' and not np.any(F.dense(Y)):
